@@ -102,7 +102,17 @@ impl Gs1State {
             admin_name: rng.bool().then(|| ((if rng.bool() { "AdminName" } else { "admin" }).to_string(), rng.text(16, GS_FORBID))),
             admin_also: None,
             tournament: rng.bool().then(|| (tour, bool_text(rng, tour))).filter(|(_, t)| t != "1" && t != "0"),
-            extras: extras(rng, n_extras, GS_FORBID),
+            extras: {
+                let mut e = extras(rng, n_extras, GS_FORBID);
+                // variables numbered like per-player fields but of no per-player kind are ordinary variables
+                if rng.chance(1, 4) {
+                    let k = format!("{}_{}", rng.pick(&["score", "kills", "pid", "skill", "teamscore", "bot", "Player", "FRAGS"]), if rng.bool() { rng.below(4) as usize } else { n_players + rng.below(3) as usize });
+                    if !e.iter().any(|(x, _)| *x == k) {
+                        e.push((k, rng.text(8, GS_FORBID)));
+                    }
+                }
+                e
+            },
             players: (0 .. n_players)
                 .map(|_| {
                     let sec = rng.bool();
